@@ -382,8 +382,11 @@ class WalkProp:
         out.coverage["walks"] = len(info["instances"])
         out.coverage["formulas"] = list(WALK_INVS[prop])
         missing = [o for o in ALL_OPS if not ops.get(o + ":ok")]
+        missing += [t for t in ("provider_dummy", "receiver_dummy", "provider_deleted", "new_dummy", "vehicle_disappears",
+                                "overflow_start", "overflow_fallback", "conflict_returned", "fit_moved_some",
+                                "segment_with_depot", "formation_of_3plus") if not ops.get("tag:" + t)]
         if missing:
-            raise ToolError("vacuous walk corpus: operations never succeeded: %s" % missing)
+            raise ToolError("vacuous walk corpus: never exercised: %s" % missing)
         # stage snapshots and local-search steps of the pipeline corpus are validated as well
         if prop in PIPE_STAGE_INVS:
             pinfo = pipeline.corpus(tier, seed, "release")
@@ -1000,7 +1003,7 @@ def mc_schedule(out, tier):
             json.dump(gen.spec_view(mcinst.tiny(variant, ntrips)), f)
         mc_cached(out, "MC_Schedule_v%d_t%d_%s" % (variant, ntrips, "_".join(bounds)), lambda: common.run_tlc(
             "MC_Schedule", invariants=["AbsInv", "OutputFromInv", "OutputWhenAligned"],
-            constants={"MaxReal": bounds[0], "MaxDummy": bounds[1], "MaxId": bounds[2]},
+            constants={"MaxReal": bounds[0], "MaxDummy": bounds[1], "MaxId": bounds[2], "Det": "FALSE"},
             extra_env={"INSTANCE": ip}, workers=max(4, common.NCPU - 2), timeout=6000, cont=False, xmx="12g"))
 
 
@@ -1153,3 +1156,89 @@ def _wrap_c11_inner():
 
 
 _wrap_c11_inner()
+
+
+# =========================================================================== specification -> implementation (schedule)
+import schedreplay  # noqa: E402
+
+REPLAY_INVS = ["P_C13_replay_ok", "P_C13_replay_state", "P_C13_replay_inv"]
+
+
+def schedule_replay_leg(prop, out, tier):
+    settings = [(0, 2, ("2", "1", "3"))] if tier == "quick" else [(0, 2, ("2", "1", "4")), (1, 3, ("2", "1", "3"))]
+    total = 0
+    for variant, ntrips, bounds in settings:
+        cdir = os.path.join(common.WORK, "cache", "mc_" + spec_hash())
+        os.makedirs(cdir, exist_ok=True)
+        cp = os.path.join(cdir, "schedreplay_v%d_t%d_%s.json" % (variant, ntrips, "_".join(bounds)))
+        if os.path.exists(cp):
+            with open(cp) as f:
+                rec = json.load(f)
+            cases = rec["cases"]
+            out.states += rec["distinct"]
+            out.transitions += rec["generated"]
+            out.tlc_runs.append({"run": "MC:MC_Schedule(Det,cached)", "distinct": rec["distinct"],
+                                 "generated": rec["generated"], "wall_s": rec["wall"]})
+            I = mcinst.tiny(variant, ntrips)
+        else:
+            s0, g0 = out.states, out.transitions
+            import time as _t
+            t0 = _t.time()
+            I, cases = schedreplay.run_model(out, variant, ntrips, bounds)
+            with open(cp, "w") as f:
+                json.dump({"cases": cases, "distinct": out.states - s0, "generated": out.transitions - g0,
+                           "wall": round(_t.time() - t0, 1)}, f)
+        by_case = schedreplay.execute(I, cases)
+        d = common.cache_dir("schedreplay_%d" % os.getpid())
+        chunks, index = schedreplay.build_traces(I, cases, by_case, d)
+        viols = run_tlc_chunks("TraceSched", REPLAY_INVS, chunks, "TraceSched/replay", out, max_parallel=12, workers=1)
+        traces = {}
+        for ci, v in viols:
+            if ci not in traces:
+                traces[ci] = common.read_ndjson(chunks[ci])
+            ev = traces[ci][v["l"] - 1]
+            k = [x for x in index[ci] if x[0] == v["l"]][0][1]
+            sig = "%s:%s" % (v["name"], cases[k]["hist"][-1]["op"] if cases[k]["hist"] else "empty")
+            payload = {"property": prop, "kind": "schedreplay", "formula": v["name"], "signature": sig,
+                       "variant": variant, "ntrips": ntrips, "history": cases[k]["hist"], "expected": cases[k]["A"],
+                       "msg": ev.get("msg")}
+            out.findings.append(Finding(prop, v["name"], "model_state_%d" % k, sig,
+                                        "history=%s" % json.dumps(cases[k]["hist"])[:300], payload))
+        for p in chunks:
+            os.remove(p)
+        total += len(cases)
+    out.coverage["model_states_replayed_on_implementation"] = total
+    out.traces += total
+
+
+def _wrap_c13_replay():
+    entry = REGISTRY["C13"]
+    orig = entry.run
+    orig_replay = entry.replay
+
+    def run(prop, tier, seed):
+        out = orig(prop, tier, seed)
+        schedule_replay_leg(prop, out, tier)
+        return out
+
+    def replay(prop, path):
+        with open(path) as f:
+            payload = json.load(f)
+        if payload.get("kind") != "schedreplay":
+            return orig_replay(prop, path)
+        out = Outcome()
+        I = mcinst.tiny(payload["variant"], payload["ntrips"])
+        cases = [{"hist": payload["history"], "A": payload["expected"], "cyc": []}]
+        by_case = schedreplay.execute(I, cases)
+        d = common.cache_dir("schedreplay_%d" % os.getpid())
+        chunks, index = schedreplay.build_traces(I, cases, by_case, d)
+        viols = run_tlc_chunks("TraceSched", ["P_C13_replay_ok", "P_C13_replay_inv"], chunks, "TraceSched/replay", out, workers=1)
+        for ci, v in viols:
+            out.findings.append(Finding(prop, v["name"], "model_state", payload["signature"], "", payload))
+        return out
+
+    entry.run = run
+    entry.replay = replay
+
+
+_wrap_c13_replay()
